@@ -308,3 +308,10 @@ def check(ctx):
     loops = [n for n in own_walk(wf.node) if isinstance(n, ast.While)]
     ok = len(loops) == 1 and any(P("await self.wait()").match(b) is not None for b in loops[0].body)
     ctx.ob("R11-f", wf, "wait_for re-evaluates the predicate after every wake-up", ok, detail="" if ok else "wait_for does not loop over wait()", by=("while not predicate(): await self.wait()",))
+
+    # ---- R11-f public Event, its adapter and Condition's `async with` ----------------------------------------------------------------
+    from .adapters import check_adapter, check_factory, check_async_with
+    check_adapter(ctx, "R11-f", "EventAdapter", "_internal_event", "_event", "create_event", {}, value_members=("is_set", "statistics"),
+                  pre_state={"set": "self._is_set = True"})
+    check_factory(ctx, "R11-f", "Event", "create_event", "EventAdapter")
+    check_async_with(ctx, "R11-f", "Condition")
